@@ -144,89 +144,6 @@ func frameOf(module string) string {
 func TestC07(t *testing.T) {
 	Col.Property = "C07"
 	ReplayRegress(t, "C07")
-	smallOpts := func() GenOpts {
-		o := DefaultOpts(Canonical)
-		o.BigProb, o.MaxList = 60, 3000
-		return o
-	}
-	// (i) every type: one message followed by an arbitrary tail
-	for _, tn := range MyTypes() {
-		tn := tn
-		t.Run(tn, func(t *testing.T) {
-			CheckProp(t, "C07", "c07", tn, func(rt *rapid.T) *CaseStream {
-				v, _ := GenValue(rt, tn, smallOpts())
-				c := &CaseStream{Items: []*Value{v}}
-				switch rapid.IntRange(0, 5).Draw(rt, "tailkind") {
-				case 5: // a long tail: the unread total is near a multiple of 64 KiB (lengths compared in narrow arithmetic)
-					el := len(Render(v, nil).Bytes)
-					k := rapid.IntRange(1, 3).Draw(rt, "tailk")
-					l := 65536*k - el + rapid.IntRange(0, el+8).Draw(rt, "taild")
-					c.Tail = expandBytes(max(1, l), rapid.Uint64().Draw(rt, "tailsalt"))
-				case 0: // no tail
-				case 1: // looks like the start of another message of the same type
-					o, _ := GenValue(rt, tn, smallOpts())
-					b := Render(o, nil).Bytes
-					c.Tail = b[:rapid.IntRange(0, len(b)).Draw(rt, "tailcut")]
-				default:
-					c.Tail = rapid.SliceOfN(rapid.Byte(), 1, 64).Draw(rt, "tail")
-				}
-				size := len(Render(v, nil).Bytes)
-				nt := len(c.Tail) > 0 && size > 0
-				cls := []string{"single+tail"}
-				if size == 0 {
-					cls = append(cls, "zero-length-type")
-				}
-				if len(c.Tail) > 0 {
-					cls = append(cls, "tail-nonempty")
-				}
-				Col.Case(Hash64(JSONOf(c)), nt, cls...)
-				Col.Program(tn)
-				if len(c.Tail) > 60000 {
-					cls = append(cls, "tail>60KB")
-				}
-				if nt && Col.WantSample("single+tail") && size < 200 && len(c.Tail) < 200 {
-					Col.Sample("single+tail", c)
-				}
-				return c
-			}, oracleC07)
-		})
-	}
-	// (i-b) every type: a short stream of messages of that one type, decoded one after another into ONE receiver
-	for _, tn := range MyTypes() {
-		tn := tn
-		if !hasVariableParts(tn) {
-			continue // a flat message has nothing a used receiver could keep (C15 covers plain field leftovers)
-		}
-		t.Run("reuse/"+tn, func(t *testing.T) {
-			CheckProp(t, "C07", "c07", "reuse/"+tn, func(rt *rapid.T) *CaseStream {
-				n := rapid.IntRange(2, 5).Draw(rt, "n")
-				c := &CaseStream{Reuse: true}
-				kinds := map[string]bool{}
-				so := smallOpts()
-				so.HugeProb, so.HugeObj = 0, 0
-				for i := 0; i < n; i++ {
-					v, _ := GenValue(rt, tn, so)
-					c.Items = append(c.Items, v)
-					if di := Types[tn].DynIndex(); di >= 0 && v.F[di].O != nil {
-						kinds[v.F[di].O.Type] = true
-					}
-				}
-				if rapid.Bool().Draw(rt, "hastail") {
-					c.Tail = rapid.SliceOfN(rapid.Byte(), 1, 16).Draw(rt, "tail")
-				}
-				cls := []string{"same-type-stream-reused-receiver"}
-				if len(kinds) >= 2 {
-					cls = append(cls, "reused-receiver-changes-part-type")
-				}
-				Col.Case(Hash64(JSONOf(c)), true, cls...)
-				Col.Program(tn)
-				if len(kinds) >= 2 && Col.WantSample("reuse") && len(JSONOf(c)) < 4000 {
-					Col.Sample("reuse", c)
-				}
-				return c
-			}, oracleC07)
-		})
-	}
 	if Thorough() {
 		// giants: a frame with 1.5 million / 2^22+3 list entries followed by an ordinary frame
 		t.Run("giant-streams", func(t *testing.T) {
@@ -242,119 +159,209 @@ func TestC07(t *testing.T) {
 			}
 		})
 	}
+	RunProps(t, rpC07(MyTypes(), false))
+}
+
+func rpC07(types []string, all bool) (out []RProp) {
+	smallOpts := func() GenOpts {
+		o := DefaultOpts(Canonical)
+		o.BigProb, o.MaxList = 60, 3000
+		return o
+	}
+	// (i) every type: one message followed by an arbitrary tail
+	for _, tn := range types {
+		tn := tn
+		out = append(out, MkProp("C07", "c07", tn, func(rt *rapid.T) *CaseStream {
+			v, _ := GenValue(rt, tn, smallOpts())
+			c := &CaseStream{Items: []*Value{v}}
+			switch rapid.IntRange(0, 5).Draw(rt, "tailkind") {
+			case 5: // a long tail: the unread total is near a multiple of 64 KiB (lengths compared in narrow arithmetic)
+				el := len(Render(v, nil).Bytes)
+				k := rapid.IntRange(1, 3).Draw(rt, "tailk")
+				l := 65536*k - el + rapid.IntRange(0, el+8).Draw(rt, "taild")
+				c.Tail = expandBytes(max(1, l), rapid.Uint64().Draw(rt, "tailsalt"))
+			case 0: // no tail
+			case 1: // looks like the start of another message of the same type
+				o, _ := GenValue(rt, tn, smallOpts())
+				b := Render(o, nil).Bytes
+				c.Tail = b[:rapid.IntRange(0, len(b)).Draw(rt, "tailcut")]
+			default:
+				c.Tail = rapid.SliceOfN(rapid.Byte(), 1, 64).Draw(rt, "tail")
+			}
+			size := len(Render(v, nil).Bytes)
+			nt := len(c.Tail) > 0 && size > 0
+			cls := []string{"single+tail"}
+			if size == 0 {
+				cls = append(cls, "zero-length-type")
+			}
+			if len(c.Tail) > 0 {
+				cls = append(cls, "tail-nonempty")
+			}
+			Col.Case(Hash64(JSONOf(c)), nt, cls...)
+			Col.Program(tn)
+			if len(c.Tail) > 60000 {
+				cls = append(cls, "tail>60KB")
+			}
+			if nt && Col.WantSample("single+tail") && size < 200 && len(c.Tail) < 200 {
+				Col.Sample("single+tail", c)
+			}
+			return c
+		}, oracleC07))
+	}
+	// (i-b) every type: a short stream of messages of that one type, decoded one after another into ONE receiver
+	for _, tn := range types {
+		tn := tn
+		if !hasVariableParts(tn) {
+			continue // a flat message has nothing a used receiver could keep (C15 covers plain field leftovers)
+		}
+		out = append(out, MkProp("C07", "c07", "reuse/"+tn, func(rt *rapid.T) *CaseStream {
+			n := rapid.IntRange(2, 5).Draw(rt, "n")
+			c := &CaseStream{Reuse: true}
+			kinds := map[string]bool{}
+			so := smallOpts()
+			so.HugeProb, so.HugeObj = 0, 0
+			for i := 0; i < n; i++ {
+				v, _ := GenValue(rt, tn, so)
+				c.Items = append(c.Items, v)
+				if di := Types[tn].DynIndex(); di >= 0 && v.F[di].O != nil {
+					kinds[v.F[di].O.Type] = true
+				}
+			}
+			if rapid.Bool().Draw(rt, "hastail") {
+				c.Tail = rapid.SliceOfN(rapid.Byte(), 1, 16).Draw(rt, "tail")
+			}
+			cls := []string{"same-type-stream-reused-receiver"}
+			if len(kinds) >= 2 {
+				cls = append(cls, "reused-receiver-changes-part-type")
+			}
+			Col.Case(Hash64(JSONOf(c)), true, cls...)
+			Col.Program(tn)
+			if len(kinds) >= 2 && Col.WantSample("reuse") && len(JSONOf(c)) < 4000 {
+				Col.Sample("reuse", c)
+			}
+			return c
+		}, oracleC07))
+	}
 	// (ii) streams of mixed frames, per protocol
 	for mi, m := range ModuleIDs {
-		if !MyShare(mi) && EnvNShards() <= len(ModuleIDs) {
+		if !all && !MyShare(mi) && EnvNShards() <= len(ModuleIDs) {
 			continue
 		}
 		m := m
-		t.Run("stream/"+m, func(t *testing.T) {
-			CheckProp(t, "C07", "c07", "stream/"+m, func(rt *rapid.T) *CaseStream {
-				n := rapid.IntRange(1, 12).Draw(rt, "n")
-				if Thorough() {
-					n = rapid.IntRange(1, 40).Draw(rt, "n")
+		out = append(out, MkProp("C07", "c07", "stream/"+m, func(rt *rapid.T) *CaseStream {
+			n := rapid.IntRange(1, 12).Draw(rt, "n")
+			if Thorough() {
+				n = rapid.IntRange(1, 40).Draw(rt, "n")
+			}
+			c := &CaseStream{}
+			kinds := map[string]bool{}
+			so := smallOpts()
+			so.HugeProb, so.HugeObj = 0, 0 // the remainder is compared after every decode: keep the stream's total size moderate
+			for i := 0; i < n; i++ {
+				v, _ := GenValue(rt, frameOf(m), so)
+				c.Items = append(c.Items, v)
+				if b := v.F[Types[v.Type].DynIndex()].O; b != nil {
+					kinds[b.Type] = true
 				}
-				c := &CaseStream{}
-				kinds := map[string]bool{}
-				so := smallOpts()
-				so.HugeProb, so.HugeObj = 0, 0 // the remainder is compared after every decode: keep the stream's total size moderate
-				for i := 0; i < n; i++ {
-					v, _ := GenValue(rt, frameOf(m), so)
-					c.Items = append(c.Items, v)
-					if b := v.F[Types[v.Type].DynIndex()].O; b != nil {
-						kinds[b.Type] = true
-					}
-				}
-				if rapid.Bool().Draw(rt, "hastail") {
-					c.Tail = rapid.SliceOfN(rapid.Byte(), 1, 16).Draw(rt, "tail")
-				}
-				nt := n >= 2 && len(kinds) >= 2
-				cls := []string{"stream:" + m, fmt.Sprintf("stream-len:%d", min(n, 10)/5*5)}
-				if nt {
-					cls = append(cls, "stream>=2-mixed-bodies")
-				}
-				Col.Case(Hash64(JSONOf(c)), nt || len(c.Tail) > 0, cls...)
-				if nt && Col.WantSample("stream") && len(JSONOf(c)) < 4000 {
-					Col.Sample("stream", c)
-				}
-				return c
-			}, oracleC07)
-		})
+			}
+			if rapid.Bool().Draw(rt, "hastail") {
+				c.Tail = rapid.SliceOfN(rapid.Byte(), 1, 16).Draw(rt, "tail")
+			}
+			nt := n >= 2 && len(kinds) >= 2
+			cls := []string{"stream:" + m, fmt.Sprintf("stream-len:%d", min(n, 10)/5*5)}
+			if nt {
+				cls = append(cls, "stream>=2-mixed-bodies")
+			}
+			Col.Case(Hash64(JSONOf(c)), nt || len(c.Tail) > 0, cls...)
+			if nt && Col.WantSample("stream") && len(JSONOf(c)) < 4000 {
+				Col.Sample("stream", c)
+			}
+			return c
+		}, oracleC07))
 	}
+	return
 }
 
 func TestC11(t *testing.T) {
 	Col.Property = "C11"
 	ReplayRegress(t, "C11")
-	for _, tn := range MyTypes() {
+	RunProps(t, rpC11(MyTypes()))
+}
+
+func rpC11(types []string) (out []RProp) {
+	for _, tn := range types {
 		tn := tn
-		t.Run(tn, func(t *testing.T) {
-			CheckProp(t, "C11", "c11", tn, func(rt *rapid.T) *CaseCut {
-				o := DefaultOpts(Canonical)
-				o.BigProb, o.MaxList = 50, 1500
-				v, _ := GenValue(rt, tn, o)
-				c := &CaseCut{Type: tn, V: v}
-				c.Pre, _ = genPrelude(rt, tn, false)
-				if len(c.Pre) > 0 {
-					Col.Class("values-after-prior-calls", 1)
-				}
-				if hasVariableParts(tn) && rapid.IntRange(0, 2).Draw(rt, "used") == 0 {
-					po := GenOpts{Mode: Canonical, MaxList: 40}
-					c.Prior, _ = GenValue(rt, tn, po)
-					Col.Class("values-decoded-into-a-used-receiver", 1)
-				}
-				r := Render(v, &RenderOpts{Spans: true})
-				n := len(r.Bytes)
-				if n > 4096 {
-					// all field boundaries +-1 plus 256 drawn cuts
-					seen := map[int]bool{}
-					for _, sp := range r.Spans {
-						for _, k := range []int{sp.Off - 1, sp.Off, sp.Off + 1, sp.Off + sp.Len - 1} {
-							if k >= 0 && k < n && !seen[k] && len(seen) < 3000 {
-								seen[k] = true
-								c.Cuts = append(c.Cuts, k)
-							}
+		out = append(out, MkProp("C11", "c11", tn, func(rt *rapid.T) *CaseCut {
+			o := DefaultOpts(Canonical)
+			o.BigProb, o.MaxList = 50, 1500
+			v, _ := GenValue(rt, tn, o)
+			c := &CaseCut{Type: tn, V: v}
+			c.Pre, _ = genPrelude(rt, tn, false)
+			if len(c.Pre) > 0 {
+				Col.Class("values-after-prior-calls", 1)
+			}
+			if hasVariableParts(tn) && rapid.IntRange(0, 2).Draw(rt, "used") == 0 {
+				po := GenOpts{Mode: Canonical, MaxList: 40}
+				c.Prior, _ = GenValue(rt, tn, po)
+				Col.Class("values-decoded-into-a-used-receiver", 1)
+			}
+			r := Render(v, &RenderOpts{Spans: true})
+			n := len(r.Bytes)
+			if n > 4096 {
+				// all field boundaries +-1 plus 256 drawn cuts
+				seen := map[int]bool{}
+				for _, sp := range r.Spans {
+					for _, k := range []int{sp.Off - 1, sp.Off, sp.Off + 1, sp.Off + sp.Len - 1} {
+						if k >= 0 && k < n && !seen[k] && len(seen) < 3000 {
+							seen[k] = true
+							c.Cuts = append(c.Cuts, k)
 						}
 					}
-					for i := 0; i < 256; i++ {
-						c.Cuts = append(c.Cuts, rapid.IntRange(0, n-1).Draw(rt, "cut"))
+				}
+				for i := 0; i < 256; i++ {
+					c.Cuts = append(c.Cuts, rapid.IntRange(0, n-1).Draw(rt, "cut"))
+				}
+			}
+			// evidence: one evaluation per (value, cut); non-trivial if the cut lies inside a list/text/body
+			inside := func(k int) bool {
+				for _, sp := range r.Spans {
+					if (sp.Kind == "elems" || sp.Kind == "text" || sp.Kind == "body") && k >= sp.Off && k < sp.Off+sp.Len {
+						return true
 					}
 				}
-				// evidence: one evaluation per (value, cut); non-trivial if the cut lies inside a list/text/body
-				inside := func(k int) bool {
-					for _, sp := range r.Spans {
-						if (sp.Kind == "elems" || sp.Kind == "text" || sp.Kind == "body") && k >= sp.Off && k < sp.Off+sp.Len {
-							return true
-						}
-					}
-					return false
+				return false
+			}
+			cuts := c.Cuts
+			if len(cuts) == 0 {
+				cuts = make([]int, n)
+				for i := range cuts {
+					cuts[i] = i
 				}
-				cuts := c.Cuts
-				if len(cuts) == 0 {
-					cuts = make([]int, n)
-					for i := range cuts {
-						cuts[i] = i
-					}
+			}
+			for _, k := range cuts {
+				if inside(k) {
+					Col.Case(Hash64([]byte(tn), r.Bytes[:k]), true, "cut-inside-list/text/body")
+				} else {
+					Col.Case(Hash64([]byte(tn), r.Bytes[:k]), false, "cut-in-fixed-part")
 				}
-				for _, k := range cuts {
-					if inside(k) {
-						Col.Case(Hash64([]byte(tn), r.Bytes[:k]), true, "cut-inside-list/text/body")
-					} else {
-						Col.Case(Hash64([]byte(tn), r.Bytes[:k]), false, "cut-in-fixed-part")
-					}
-				}
-				if n == 0 {
-					Col.Case(Hash64([]byte(tn)), false, "zero-length-encoding(no strict prefix)")
-				}
-				if len(c.Cuts) == 0 && n > 0 {
-					Col.Class("values-with-all-cuts", 1)
-				}
-				Col.Program(tn)
-				if n > 0 && n < 120 && Col.WantSample("value") {
-					Col.Sample("value", map[string]any{"type": tn, "bytes": hexClip(r.Bytes), "cuts": "all 0.." + fmt.Sprint(n-1)})
-				}
-				return c
-			}, oracleC11)
-		})
+			}
+			if n == 0 {
+				Col.Case(Hash64([]byte(tn)), false, "zero-length-encoding(no strict prefix)")
+			}
+			if len(c.Cuts) == 0 && n > 0 {
+				Col.Class("values-with-all-cuts", 1)
+			}
+			Col.Program(tn)
+			if n > 0 && n < 120 && Col.WantSample("value") {
+				Col.Sample("value", map[string]any{"type": tn, "bytes": hexClip(r.Bytes), "cuts": "all 0.." + fmt.Sprint(n-1)})
+			}
+			return c
+		}, oracleC11))
 	}
+	return
+}
+
+func init() {
+	RapidProps["C07"] = func() []RProp { return rpC07(TypeNames, true) }
+	RapidProps["C11"] = func() []RProp { return rpC11(TypeNames) }
 }
